@@ -551,3 +551,78 @@ Definition unpatch_storage (p : list Z * list Z) : list Z :=
   end.
 Definition gens_oracle (wops wobs : list (list Z)) : bool :=
   Nat.eqb (length wops) (length wobs) && gen_oracle false wops (map unpatch_storage (combine wops wobs)).
+
+(* ---------- engine genc: the accesses of the case are issued by one thread while another thread completes every
+   pending await of the body as soon as it appears (value 100+k); under every schedule the observations must be those
+   of the sequential model with the completions inserted right after the access that left the body suspended ---------- *)
+Fixpoint settle_all (fuel : nat) (ha : bool) (s : sys) (o : obs) : sys * obs :=
+  match fuel with
+  | O => (s, o)
+  | S f =>
+      match o_res o, bst s with
+      | RPend, BPend k =>
+          let '(s1, o1) := step ha s (OComplete k (100 + k)) in
+          settle_all f ha s1 (mkObs (o_st o1) (o_res o1) (o_done o1) 0 0 (o_ev o ++ o_ev o1) (o_cnt o1))
+      | _, _ => (s, o)
+      end
+  end.
+
+Definition zero_alloc (o : obs) : obs := mkObs (o_st o) (o_res o) (o_done o) 0 0 (o_ev o) (o_cnt o).
+
+Definition drive (ha : bool) (s : sys) (y a : Z) : sys * obs :=
+  let '(s1, o) := step ha s (OAccess y a) in settle_all (S (length (pc s))) ha s1 (zero_alloc o).
+
+(* for (int v : gen): iterator accesses until something other than a value comes out *)
+Fixpoint range_for (fuel : nat) (ha : bool) (s : sys) : sys * list obs :=
+  match fuel with
+  | O => (s, [])
+  | S f =>
+      let '(s1, o) := drive ha s 1 0 in
+      match o_res o with
+      | RVal _ => let '(s2, os) := range_for f ha s1 in (s2, o :: os)
+      | _ => (s1, [o])
+      end
+  end.
+
+Fixpoint genc_from (ha : bool) (s : sys) (ops : list (list Z)) : list obs :=
+  match ops with
+  | [] => []
+  | w :: t =>
+      match w with
+      | 9 :: _ => genc_from ha s t
+      | [1; y; a] =>
+          if y =? 7 then
+            if negb ha && live s then let '(s1, os) := range_for (S (S (length (pc s)))) ha s in os ++ genc_from ha s1 t
+            else rejected :: genc_from ha s t
+          else let '(s1, o) := drive ha s y a in o :: genc_from ha s1 t
+      | 0 :: _ => let '(s1, o) := step ha s (decode ha w) in zero_alloc o :: genc_from ha s1 t
+      | [3] => let '(s1, o) := step ha s ODestroy in zero_alloc o :: genc_from ha s1 t
+      | _ => rejected :: genc_from ha s t
+      end
+  end.
+
+Definition genc_run (ha : bool) (ops : list (list Z)) : list (list Z) :=
+  map (encode_obs ha) (genc_from ha sys0 ops).
+
+(* oracle on an observed trace: every answer line in order (values, exception, End) and the arguments the body
+   received conform to the specification of the script; RAII balance; resumption counts *)
+Fixpoint genc_args (ops : list (list Z)) : list Z :=
+  match ops with
+  | [] => []
+  | [1; y; a] :: t => if y =? 7 then genc_args t else a :: genc_args t
+  | _ :: t => genc_args t
+  end.
+
+Definition genc_oracle (ha : bool) (wops wobs : list (list Z)) : bool :=
+  let os := map dec_obs wobs in
+  let acc := filter ok os in
+  let log := map (fun i => (i, O)) (flat_map (fun o => arg_items (o_ev o) ++ res_item (o_res o)) acc) in
+  match wops with
+  | (0 :: sc) :: _ =>
+      no_bad os
+      && conforms (visible ha log) (map (fun p => (fst p, O)) (visible ha (spec (decode_script ha sc) (genc_args wops)))) O
+      && forallb (fun o => (0 <=? o_cnt o) && (o_cnt o <=? 1)) os
+      && (if existsb (fun w => match w with [3] => true | _ => false end) wops then balanced (all_events os) else true)
+      && negb (existsb (fun o => match o_res o with RPend | RNReady => true | _ => false end) acc)
+  | _ => forallb (fun o => negb (ok o)) os
+  end.
